@@ -2,7 +2,7 @@
 # tools/seedall.sh <log> <ids...> : run seedtest on every seed of the given properties (from /tmp/seedwork)
 LOG=$1; shift
 for id in "$@"; do
-  for d in /tmp/seedwork/$id/seed_out/*/; do
+  for d in /tmp/seedwork/$id/${SEEDSUB:-seed_out}/*/; do
     [ -f "$d/patch.diff" ] || continue
     /verif/tools/seedtest.sh "$d" >> "$LOG" 2>&1
   done
